@@ -77,3 +77,25 @@ func (v *VerifWorker) Start() { v.w.Start() }
 
 // Close stops them and returns the table lease, as the replication manager does.
 func (v *VerifWorker) Close() { v.w.Close() }
+
+// VerifNewStartableWorker builds a worker whose own routines can be started (Start): besides the
+// engine it gets the store its queue statistics go to and the notification queue, as the
+// replication manager hands them to its workers. Intervals: lease and poll interval; the lease
+// itself lasts four lease intervals, as always.
+func VerifNewStartableWorker(e *storage.Engine, table string, store replicationManagerStore, queue *storage.IndexNotificationQueue, leaseInterval, pollInterval time.Duration) *VerifWorker {
+	f := &workerFactory{
+		pollInterval:      pollInterval,
+		leaseInterval:     leaseInterval,
+		reconcileInterval: pollInterval,
+		logTimeout:        time.Second,
+		snapshotTimeout:   time.Second,
+		recoverySemaphore: semaphore.NewWeighted(1),
+		log:               zap.NewNop().Sugar(),
+		engine:            e,
+		store:             store,
+		queue:             queue,
+	}
+	f.metrics.replicationIndex = prometheus.NewGaugeVec(prometheus.GaugeOpts{Name: "verif_replication_index"}, []string{"role", "table"})
+	f.metrics.replicationLeased = prometheus.NewGaugeVec(prometheus.GaugeOpts{Name: "verif_replication_leased"}, []string{"table"})
+	return &VerifWorker{w: f.create(table)}
+}
